@@ -149,6 +149,23 @@ func checkC10(c *Check) {
 					}
 				}
 				c.Cond(okM, key+":method", pos, "table method = method of the tree the leaf was added to", "the leaf is stored under a method other than the one whose tree holds it")
+				// the stored leaf is one Route.Headers() will visit (and evict): it is also put, under the
+				// same method, into the map that becomes Route.leaves
+				evictable := false
+				allInstrs(fn, func(in2 ssa.Instruction) {
+					mu2, ok := in2.(*ssa.MapUpdate)
+					if !ok || strip(mu2.Value) != strip(leaf) || strip(mu2.Key) != strip(mkey) {
+						return
+					}
+					for _, r := range referrers(strip(mu2.Map)) {
+						if st, ok := r.(*ssa.Store); ok {
+							if f := fieldOf(strip(st.Addr)); f != nil && f.Name() == "leaves" {
+								evictable = true
+							}
+						}
+					}
+				})
+				c.Cond(evictable, key+":evictable", pos, "the stored leaf is also recorded in Route.leaves for the same method, so Headers() reaches and evicts it", "a leaf enters the shortcut table that Route.Headers() never visits: once header constraints are set it keeps being served from the shortcut without any header check")
 			case ssa.CallInstruction:
 				if callName(x.Common()) != "builtin.delete" {
 					return
@@ -224,6 +241,55 @@ func checkC10(c *Check) {
 	}
 	if nSet == 0 {
 		c.OK("flamego:no-SetHeaderMatcher-callers", "router.go", "no caller of SetHeaderMatcher outside the route package", 1)
+	}
+
+	// ---- R5 static nodes compare the request segment with the segment's own canonical text
+	c.Rule("R5", "E3 provenance", "a static leaf matches exactly TrimLeft(segment.String(), \"/?\") and a static tree exactly segment.String()[1:]: the text used as shortcut key is the text the tree compares with", 2)
+	if nl := p.Fn("route", "newLeaf"); nl != nil {
+		okLit := false
+		allInstrs(nl, func(in ssa.Instruction) {
+			if st, ok := in.(*ssa.Store); ok {
+				if f := fieldOf(strip(st.Addr)); f != nil && f.Name() == "literals" {
+					okLit = vCall("strings.TrimLeft", vCall("(*route.Segment).String", vParam(nl, 2)), vConstStr("/?"))(st.Val)
+					if !okLit {
+						c.Bad(p.FuncKey(nl)+":static-literals", p.Pos(st.Pos()), "a static leaf's literal is "+vstr(st.Val)+" rather than the segment's canonical text: the tree admits a different path than the route text used as shortcut key")
+					}
+				}
+			}
+		})
+		if okLit {
+			c.OK(p.FuncKey(nl)+":static-literals", p.FuncPos(nl), "literals = strings.TrimLeft(s.String(), \"/?\")", 1)
+		}
+	} else {
+		c.Anchor("route.newLeaf")
+	}
+	if sm := p.Meth("route", "staticLeaf", "match"); sm != nil {
+		m1, pos := false, false
+		allInstrs(sm, func(in ssa.Instruction) {
+			if b, ok := in.(*ssa.BinOp); ok && b.Op == token.EQL {
+				mm, pp := cCmp(token.EQL, vField(vParam(sm, 0), "literals"), vParam(sm, 1))(b)
+				if mm {
+					m1, pos = mm, pp
+				}
+			}
+		})
+		c.Cond(m1 && pos, p.FuncKey(sm)+":exact-compare", p.FuncPos(sm), "static leaf: literals == segment", "the static leaf does not compare its literal text with the request segment exactly")
+	}
+	if sm := p.Meth("route", "staticTree", "match"); sm != nil {
+		okT := false
+		allInstrs(sm, func(in ssa.Instruction) {
+			if b, ok := in.(*ssa.BinOp); ok && b.Op == token.EQL {
+				text := func(v ssa.Value) bool {
+					sl, ok := strip(v).(*ssa.Slice)
+					return ok && sl.High == nil && vConstInt(1)(sl.Low) && vCall("(*route.Segment).String", vField(vParam(sm, 0), "segment"))(sl.X)
+				}
+				mm, pp := cCmp(token.EQL, text, vParam(sm, 1))(b)
+				if mm && pp {
+					okT = true
+				}
+			}
+		})
+		c.Cond(okT, p.FuncKey(sm)+":exact-compare", p.FuncPos(sm), "static tree: segment.String()[1:] == segment", "the static tree does not compare its canonical text with the request segment exactly")
 	}
 
 	// ---- R4 Static() means "the route text is the only path it admits"
